@@ -122,17 +122,39 @@ fn prf<'a, F: FciBuilder<'a>>(f: F) -> F {
     f
 }
 
+/// The concrete builder types a visitor is handed with their own type, so that it can call their methods with
+/// method syntax, as a user holding one would: that is where an inherent method shadows the trait's.
+#[macro_export]
+macro_rules! for_concrete_builders {
+    ($m:ident) => {
+        $m!(go_enum, PacketBuilder<'_>);
+        $m!(go_compound, CompoundBuilder<'_>);
+        $m!(go_sr, SenderReportBuilder);
+        $m!(go_rr, ReceiverReportBuilder);
+        $m!(go_sdes, SdesBuilder<'_>);
+        $m!(go_bye, ByeBuilder<'_>);
+        $m!(go_app, AppBuilder<'_>);
+        $m!(go_unknown, UnknownBuilder<'_>);
+        $m!(go_tfb, TransportFeedbackBuilder<'_>);
+        $m!(go_pfb, PayloadFeedbackBuilder<'_>);
+    };
+}
+
+macro_rules! default_concrete {
+    ($f:ident, $t:ty) => {
+        fn $f(self, w: &$t) -> Self::Out
+        where
+            Self: Sized,
+        {
+            self.go(w)
+        }
+    };
+}
+
 pub trait Visit {
     type Out;
     fn go<W: RtcpPacketWriter>(self, w: &W) -> Self::Out;
-    /// the `PacketBuilder` enum as a user holds it: a visitor may call its methods on the concrete type
-    /// (method syntax), which is where an inherent method would shadow the trait's
-    fn go_enum(self, w: &PacketBuilder<'_>) -> Self::Out
-    where
-        Self: Sized,
-    {
-        self.go(w)
-    }
+    for_concrete_builders!(default_concrete);
 }
 
 fn rb(b: &RbSpec) -> ReportBlockBuilder {
@@ -500,59 +522,59 @@ fn with_writer_inner<V: Visit>(p: &PacketSpec, how: How, v: V) -> V::Out {
             }
             leaf => add_member(Compound::builder(), leaf, how, &holders, &mut next),
         };
-        return v.go(&cb);
+        return v.go_compound(&cb);
     }
     match p {
         PacketSpec::Sr(s) => {
             if how.wrap {
                 v.go_enum(&PacketBuilder::from(sr(s)))
             } else {
-                v.go(&sr(s))
+                v.go_sr(&sr(s))
             }
         }
         PacketSpec::Rr(s) => {
             if how.wrap {
                 v.go_enum(&PacketBuilder::from(rr(s)))
             } else {
-                v.go(&rr(s))
+                v.go_rr(&rr(s))
             }
         }
         PacketSpec::Sdes(s) => match (how.owned, how.wrap) {
             (false, true) => v.go_enum(&PacketBuilder::from(sdes(s))),
-            (false, false) => v.go(&sdes(s)),
+            (false, false) => v.go_sdes(&sdes(s)),
             (true, true) => v.go_enum(&PacketBuilder::from(sdes_owned(s))),
-            (true, false) => v.go(&sdes_owned(s)),
+            (true, false) => v.go_sdes(&sdes_owned(s)),
         },
         PacketSpec::Bye(s) => match (how.owned, how.wrap) {
             (false, true) => v.go_enum(&PacketBuilder::from(bye(s))),
-            (false, false) => v.go(&bye(s)),
+            (false, false) => v.go_bye(&bye(s)),
             (true, true) => v.go_enum(&PacketBuilder::from(bye_owned(s))),
-            (true, false) => v.go(&bye_owned(s)),
+            (true, false) => v.go_bye(&bye_owned(s)),
         },
         PacketSpec::App(s) => {
             if how.wrap {
                 v.go_enum(&PacketBuilder::from(app(s)))
             } else {
-                v.go(&app(s))
+                v.go_app(&app(s))
             }
         }
         PacketSpec::Unknown(s) => {
             if how.wrap {
                 v.go_enum(&PacketBuilder::from(unknown(s)))
             } else {
-                v.go(&unknown(s))
+                v.go_unknown(&unknown(s))
             }
         }
         PacketSpec::Fb(s) => {
             let h = fci(&s.fci);
             match (s.kind, how.fb_owned, how.wrap) {
-                (FbKind::Transport, false, false) => v.go(&tfb(s, &h)),
+                (FbKind::Transport, false, false) => v.go_tfb(&tfb(s, &h)),
                 (FbKind::Transport, false, true) => v.go_enum(&PacketBuilder::from(tfb(s, &h))),
-                (FbKind::Transport, true, false) => v.go(&tfb_owned(s)),
+                (FbKind::Transport, true, false) => v.go_tfb(&tfb_owned(s)),
                 (FbKind::Transport, true, true) => v.go_enum(&PacketBuilder::from(tfb_owned(s))),
-                (FbKind::Payload, false, false) => v.go(&pfb(s, &h)),
+                (FbKind::Payload, false, false) => v.go_pfb(&pfb(s, &h)),
                 (FbKind::Payload, false, true) => v.go_enum(&PacketBuilder::from(pfb(s, &h))),
-                (FbKind::Payload, true, false) => v.go(&pfb_owned(s)),
+                (FbKind::Payload, true, false) => v.go_pfb(&pfb_owned(s)),
                 (FbKind::Payload, true, true) => v.go_enum(&PacketBuilder::from(pfb_owned(s))),
             }
         }
@@ -623,14 +645,20 @@ pub struct Observe<F: Fn(Option<usize>) -> Vec<(usize, bool)>> {
     pub plan: F,
 }
 
+macro_rules! observe_concrete {
+    ($f:ident, $t:ty) => {
+        fn $f(self, w: &$t) -> BuildObs {
+            observe_body!(self, w)
+        }
+    };
+}
+
 impl<F: Fn(Option<usize>) -> Vec<(usize, bool)>> Visit for Observe<F> {
     type Out = BuildObs;
     fn go<W: RtcpPacketWriter>(self, w: &W) -> BuildObs {
         observe_body!(self, w)
     }
-    fn go_enum(self, w: &PacketBuilder<'_>) -> BuildObs {
-        observe_body!(self, w)
-    }
+    for_concrete_builders!(observe_concrete);
 }
 
 pub fn observe_build(p: &PacketSpec, how: How, plan: impl Fn(Option<usize>) -> Vec<(usize, bool)>) -> BuildObs {
